@@ -210,3 +210,8 @@ class GenericSubTLV(SubTLV):
 
     def json(self) -> str:
         return f'"unknown-subtlv-{self._subtype}": "{hexstring(self._packed)}"'
+
+    def __str__(self) -> str:
+        # (without it the text was the address of the object: two decodes of the same bytes printed differently,
+        # compared unequal -- TunnelEncap.__eq__ compares the text -- and gave the attribute set another index)
+        return f'unknown-subtlv-{self._subtype} {hexstring(self._packed)}'
